@@ -1191,7 +1191,10 @@ def r_fields(ctx) -> RuleResult:
         elif "label+" in low and pos["index"] is None:
             pos["index"] = p
     checks = [("symbol", reader_pos["element_symbol"]), ("x", reader_pos["x"]), ("y", reader_pos["y"]), ("z", reader_pos["z"])]
+    unnamed = [tok for tok in toks if tok.startswith("<") and "attr:" not in tok.lower() and "label+" not in tok.lower() and "const" not in tok.lower() and "count:" not in tok.lower()]
     for name, want in checks:
+        if pos[name] is None and unnamed:
+            raise AnalysisError(f"R-FIELDS: atom line `{short(t, 70)}`: cannot tell which of the values {unnamed[:4]} is {name} (what they stand for is not followed back to an attribute)")
         ok = pos[name] is not None and {str(pos[name])} == want
         res.inst(fi.fq, f"atom line: {name} is token {pos[name]}; reader reads token {sorted(want)}", "ok" if ok else "fail")
         if not ok:
